@@ -26,10 +26,11 @@ const (
 	KG2
 	KG1s // []G1Affine: uint32 length, points
 	KG2s
+	KBlob // a caller type implementing io.WriterTo / io.ReaderFrom: BlobLen bytes of its own, verbatim
 	NKinds
 )
 
-var kindNames = [...]string{"uint64", "uint32", "[]uint64", "[][]uint64", "fr", "fp", "[]fr", "[]fp", "[][]fr", "[][][]fr", "G1", "G2", "[]G1", "[]G2"}
+var kindNames = [...]string{"uint64", "uint32", "[]uint64", "[][]uint64", "fr", "fp", "[]fr", "[]fp", "[][]fr", "[][][]fr", "G1", "G2", "[]G1", "[]G2", "WriterTo/ReaderFrom"}
 
 func (k Kind) String() string { return kindNames[k] }
 
@@ -42,6 +43,7 @@ type Val struct {
 	EE   [][]*big.Int   // KFrss
 	EEE  [][][]*big.Int // KFrsss
 	P    []ocurve.Pt    // KG1, KG2 (one entry), KG1s, KG2s
+	B    []byte         // KBlob
 }
 
 // Grammar is the stream format of one curve package.
@@ -51,7 +53,8 @@ type Grammar struct {
 	G1, G2           *Format
 	// MaxLen bounds length prefixes in the reference decoder (resource exhaustion through a lying prefix
 	// is outside the property).
-	MaxLen int
+	MaxLen  int
+	BlobLen int
 }
 
 func u32(n int) []byte { var b [4]byte; binary.BigEndian.PutUint32(b[:], uint32(n)); return b[:] }
@@ -123,6 +126,8 @@ func (g *Grammar) Encode(v Val, raw bool) []byte {
 		for _, p := range v.P {
 			out = append(out, f.Encode(p, !raw)...)
 		}
+	case KBlob:
+		out = append([]byte(nil), v.B...)
 	default:
 		panic("ocodec: bad kind")
 	}
@@ -333,6 +338,12 @@ func (g *Grammar) Decode(k Kind, b []byte, subgroup bool) Parsed {
 			}
 			v.P = append(v.P, p)
 		}
+	case KBlob:
+		s, ok := r.take(g.BlobLen)
+		if !ok {
+			return fail("truncated-blob")
+		}
+		v.B = append([]byte(nil), s...)
 	default:
 		panic("ocodec: bad kind")
 	}
@@ -365,6 +376,9 @@ func (g *Grammar) Equal(a, b Val) bool {
 			}
 		}
 		return true
+	}
+	if string(a.B) != string(b.B) {
+		return false
 	}
 	if !eqU(a.U, b.U) || !eqE(a.E, b.E) || len(a.UU) != len(b.UU) || len(a.EE) != len(b.EE) || len(a.EEE) != len(b.EEE) || len(a.P) != len(b.P) {
 		return false
@@ -421,6 +435,8 @@ func (g *Grammar) Describe(v Val) string {
 			s += f.C.String(p) + " "
 		}
 		s += "}"
+	case v.Kind == KBlob:
+		s += fmt.Sprintf("%x", v.B)
 	case v.U != nil:
 		if len(v.U) > 6 {
 			s += fmt.Sprintf("%v…(%d)", v.U[:6], len(v.U))
